@@ -22,8 +22,8 @@ TIERS = {"quick": {"runs": 2400, "wall_cap": 600}, "thorough": {"runs": 50000, "
 RULE = (
     "each evaluation is one seeded document (N-Triples, N-Quads, Turtle, TriG rendered by an independent randomised writer from a known "
     "graph: quoting styles, \\u/\\U/ECHAR escapes, prefixes/base, ; , abbreviations, comments, CR/LF/CRLF, multi-byte and non-BMP characters; "
-    "RDF/XML, TriX, JSON-LD, HexTuples as rdflib's own serialisation) delivered through <=16 seeded delivery modes (data=str/bytes, source=bytes, "
-    "BytesIO, StringIO, TextIOWrapper over a raw stream, raw byte stream and character stream with short reads down to 1 unit, "
+    "RDF/XML, TriX, JSON-LD, HexTuples as rdflib's own serialisation) delivered through 6-29 seeded delivery modes (data=str/bytes, source=bytes, "
+    "BytesIO, StringIO, TextIOWrapper over a raw stream, nameless BytesIO/StringIO/TextIOWrapper as file=, a real text-mode file that is UTF-16 or latin-1, raw byte stream and character stream with short reads down to 1 unit, "
     "StringInputSource/FileInputSource, path as str/pathlib, file:// and simulated http:// locations with redirects and content-type "
     "driven format choice, format given or guessed) with ntriples.bufsiz randomised; every delivery must give the graph of the data=str "
     "baseline (and of the writer's intended graph) up to blank-node bijection; fault runs inject OSError/EOF at a byte offset (thorough: "
